@@ -2492,8 +2492,16 @@ impl<'a, E: quiver_core::effects::Effect> Compiler<'a, E> {
             });
             last_prov = chain_prov.clone();
 
-            // Thread this chain's result into the next chain.
-            threaded = Some((chain_type, chain_prov));
+            // Thread this chain's result into the next chain. A chain that ends in a match yields
+            // the verdict (`Ok`), while its provenance still names the matched value (for the
+            // `=>` narrowing); the verdict itself did not come from there.
+            let ends_in_match = chain.match_pattern.is_some()
+                || matches!(chain.terms.last(), Some(ast::Term::Match(_)));
+            threaded = Some(if ends_in_match {
+                (chain_type, Provenance::Unknown)
+            } else {
+                (chain_type, chain_prov)
+            });
 
             // If last_type is NIL, subsequent chains are unreachable - break early
             if let Some(last_type_id) = last_type
